@@ -9,6 +9,8 @@ Args declarations of each function (csvpath/matching/functions/**):
   * numeric functions read num columns / numeric expressions, string functions txt columns;
   * side-effect functions only occur in match position (top level or right of ->).
 """
+import random
+
 from . import lang as L
 
 
@@ -360,8 +362,14 @@ class Gen:
             else:
                 self.used_onmatch = True
                 kind = "gated"
+        tracked = quals[0] if quals else None
+        if "assignq" in self.groups and rhs["k"] == "hdr":
+            # '@x.notnone = #c': only a value that IS None (a cell the row does not have) blocks the write and votes against the
+            # line; an empty cell is a value (Assign!Guarded). A draw of its own: the other streams stay as they were.
+            if random.Random(f"{name}|{L.render(rhs)}|{len(self.tracked)}").random() < 0.6:
+                quals = list(quals) + ["notnone"]
         a = L.assign(L.var(name, quals), rhs)
-        a["_defines"] = (name, kind, quals[0] if quals else None)
+        a["_defines"] = (name, kind, tracked)
         return a
 
     def register(self, a):
